@@ -161,3 +161,118 @@ func c19RealRun(bin string, base int, alarm string) (string, string) {
 	}
 	return "", ""
 }
+
+// c16RealProcess: pike's own main() watching its configuration file. Saves that remove servers — down to none —
+// must be applied like any other: removed listeners stop accepting within 20 s, a server added again serves.
+func c16RealProcess(c *Ctx) {
+	if !c.Want("real-process-config-file") || c.Shard != 2%c.NShards {
+		return
+	}
+	st := c.Stat("real-process-config-file", "enumeration")
+	st.Bounds = "pike's own binary with a configuration file: saves {two servers -> one -> none -> one again}; after each save (settle <= 20 s) every configured listener serves and every removed one refuses"
+	bin := os.Getenv("PIKEMC_REALBIN")
+	if bin == "" {
+		c.Violation("real-process-config-file", "harness-no-binary", "PIKEMC_REALBIN is not set", nil, nil, nil)
+		return
+	}
+	base := 21000 + (os.Getpid()%1100)*8
+	dir := filepath.Join("/verif/.work", fmt.Sprintf("c16real-%d", os.Getpid()))
+	os.RemoveAll(dir)
+	os.MkdirAll(dir, 0o755)
+	defer os.RemoveAll(dir)
+	origin := &c19Origin{idx: 0, addr: fmt.Sprintf("127.0.0.1:%d", base+4)}
+	if err := origin.start(); err != nil {
+		c.Violation("real-process-config-file", "harness-origin-listen", err.Error(), nil, nil, nil)
+		return
+	}
+	defer origin.stop()
+	addrs := []string{fmt.Sprintf("127.0.0.1:%d", base+5), fmt.Sprintf("127.0.0.1:%d", base+6)}
+	mk := func(keep ...int) *config.PikeConfig {
+		cfg := &config.PikeConfig{
+			Caches:    []config.CacheConfig{{Name: "c1", Size: 100, HitForPass: "5m"}},
+			Upstreams: []config.UpstreamConfig{{Name: "u", Servers: []config.UpstreamServerConfig{{Addr: "http://" + origin.addr}}}},
+			Locations: []config.LocationConfig{{Name: "l", Upstream: "u"}},
+		}
+		for _, k := range keep {
+			cfg.Servers = append(cfg.Servers, config.ServerConfig{Addr: addrs[k], Locations: []string{"l"}, Cache: "c1"})
+		}
+		return cfg
+	}
+	cfgFile := filepath.Join(dir, "pike.yml")
+	save := func(cfg *config.PikeConfig) error {
+		if err := config.InitDefaultClient(cfgFile); err != nil {
+			return err
+		}
+		defer config.Close()
+		return config.Write(cfg)
+	}
+	if err := save(mk(0, 1)); err != nil {
+		c.Violation("real-process-config-file", "harness-config-write", err.Error(), nil, nil, nil)
+		return
+	}
+	logf, _ := os.Create(filepath.Join(dir, "pike.out"))
+	defer logf.Close()
+	cmd := exec.Command(bin, "--config", cfgFile, "--log", filepath.Join(dir, "pike.log"))
+	cmd.Stdout, cmd.Stderr = logf, logf
+	cmd.Dir = dir
+	if err := cmd.Start(); err != nil {
+		c.Violation("real-process-config-file", "harness-start", err.Error(), nil, nil, nil)
+		return
+	}
+	defer func() { cmd.Process.Kill(); cmd.Wait() }()
+	client := &http.Client{Timeout: 3 * time.Second, Transport: &http.Transport{DisableKeepAlives: true}}
+	serves := func(addr string) bool {
+		resp, err := client.Get("http://" + addr + "/x")
+		if err != nil {
+			return false
+		}
+		b, _ := io.ReadAll(resp.Body)
+		resp.Body.Close()
+		return resp.StatusCode == 200 && strings.HasPrefix(string(b), "origin-")
+	}
+	accepts := func(addr string) bool {
+		conn, err := net.DialTimeout("tcp", addr, 500*time.Millisecond)
+		if err != nil {
+			return false
+		}
+		conn.Close()
+		return true
+	}
+	steps := [][]int{{0, 1}, {1}, {}, {0}}
+	for si, keep := range steps {
+		if si > 0 {
+			if err := save(mk(keep...)); err != nil {
+				c.Violation("real-process-config-file", "harness-config-write", err.Error(), nil, nil, nil)
+				return
+			}
+		}
+		st.Execs++
+		want := map[int]bool{}
+		for _, k := range keep {
+			want[k] = true
+		}
+		ok, desc := false, ""
+		for t0 := time.Now(); time.Since(t0) < 20*time.Second && !ok; time.Sleep(300 * time.Millisecond) {
+			ok, desc = true, ""
+			for i, a := range addrs {
+				if want[i] && !serves(a) {
+					ok, desc = false, fmt.Sprintf("server %s of the saved configuration does not serve", a)
+				}
+				if !want[i] && accepts(a) {
+					ok, desc = false, fmt.Sprintf("server %s, removed from the configuration, still accepts connections", a)
+				}
+			}
+		}
+		if !ok {
+			sig := "saved-configuration-not-applied"
+			if strings.Contains(desc, "still accepts") {
+				sig = "removed-server-still-listening"
+			}
+			out, _ := os.ReadFile(filepath.Join(dir, "pike.out"))
+			c.Violation("real-process-config-file", sig, fmt.Sprintf("save %d (servers %v of %v): 20 s later %s %s", si, keep, addrs, desc, trunc(out)), nil, map[string]interface{}{"save": si, "servers": keep}, nil)
+			break
+		}
+	}
+	st.States, st.Transitions, st.Nontrivial = st.Execs, st.Execs, st.Execs
+	st.NOutcomes = int(st.Execs)
+}
